@@ -274,3 +274,322 @@ MANIFEST = {
     "text": "TBD",
     "note": "TBD",
 }
+
+
+# =====================================================================================================
+# callee contract of convert_configuration (what ConvertConfiguration proves against the real body)
+
+
+def convert_summary(interp, args, kwargs):
+    """ensures: (boxes, points), one entry per frame in frame order; points_s = FRESH (N,3) array with
+    points_s[i,c] = positions_s[i,c] - (boxbounds_s[c,0] + boxlength_s[c]/2) for c < d and 0 for the padded z column;
+    box_s = freud box with the lengths boxlength_s"""
+    from pyvc.libext.C20 import FreudBox
+    snaps = args[0] if args else kwargs["snapshots"]
+    lst = interp.getattr(snaps, "snapshots")
+    c = lst.content
+    if isinstance(c, A.SeqVal):
+        T, item = c.length, c.fn
+    else:
+        T, item = len(c), (lambda s, c=c: c[int(s)])
+
+    def parts(s):
+        snap = item(s)
+        pos = interp.getattr(snap, "positions")
+        bb = interp.getattr(snap, "boxbounds")
+        bl = interp.getattr(snap, "boxlength")
+        d = A.conc_dim(pos.shape[1], "space dimension")
+        if d not in (2, 3):
+            raise sv.EngineError("convert_configuration contract: d must be 2 or 3")
+        return pos, bb, bl, d
+
+    def points(s):
+        pos, bb, bl, d = parts(s)
+        rp, rb, rl = pos.reader(), bb.reader(), bl.reader()
+
+        def fn(idx):
+            cols = [sv.sub(rp((idx[0], c)), sv.add(rb((c, 0)), sv.div(rl((c,)), 2))) for c in range(d)] + ([sv.to_frac(0.0)] if d == 2 else [])
+            return A._pick([sv.to_real(x) for x in cols], idx[1])
+        return A.new_arr((pos.shape[0], 3), fn, "float")
+
+    def box(s):
+        pos, bb, bl, d = parts(s)
+        return FreudBox([bl.get((c,)) for c in range(d)])
+    if sv.is_conc(T):
+        from pyvc.interp import new_list
+        return (new_list([box(s) for s in range(int(T))]), new_list([points(s) for s in range(int(T))]))
+    lb = Ref(cur().alloc(Content("list", A.SeqVal(T, box))), "list")
+    lp = Ref(cur().alloc(Content("list", A.SeqVal(T, points))), "list")
+    return (lb, lp)
+
+
+CONVERT = {f"{FN}.convert_configuration": convert_summary}
+
+
+def _written_files(state):
+    return {c.data["path"]: c.data for c in state.heap.values() if c.kind == "file" and c.data.get("mode") == "w"}
+
+
+def spec_system(tr, s, d):
+    """the tessellated system of frame s as the statement describes it: box lengths L_s, points = centred coordinates, z = 0 in 2-D"""
+    from pyvc.libext.C20 import FreudBox, voro_system
+
+    def rd(idx):
+        c = idx[1]
+        return centred(tr, s, idx[0], c) if c < d else sv.to_frac(0.0)
+    return voro_system(FreudBox([tr.bl(s, c) for c in range(d)]), rd, tr.N)
+
+
+BOND = {2: ("edgelength", "edgelengthlist"), 3: ("facearea", "facearealist")}
+
+
+def _row_parts(row_items):
+    """items written for one particle: Text(id cn) Block(one token per listed value) Text(newline) -> (idtok, cntok, block, valuetok)"""
+    from pyvc.text import Block, Text, Tok, text_lines
+    if len(row_items) != 3 or not isinstance(row_items[0], Text) or not isinstance(row_items[1], Block) or not isinstance(row_items[2], Text):
+        return None
+    head = text_lines([row_items[0]])
+    tail = text_lines([row_items[2]])
+    if len(head) != 1 or len(head[0]) != 2 or not all(isinstance(t, Tok) and t.kind == "int" for t in head[0]):
+        return None
+    if not isinstance(row_items[0].pieces[-1], str) or not row_items[0].pieces[-1].endswith(" "):
+        return None        # the count must be separated from the first value
+    if tail != [[], []]:
+        return None        # exactly the line terminator
+    blk = row_items[1]
+    if len(blk.items) != 1:
+        return None
+    one = text_lines([blk.items[0]])
+    if len(one) != 1 or len(one[0]) != 1 or not isinstance(one[0][0], Tok):
+        return None
+    last = blk.items[0].pieces[-1]
+    if not isinstance(last, str) or not last.endswith(" "):
+        return None        # values are blank separated
+    return head[0][0], head[0][1], blk, one[0][0]
+
+
+class CalNeighbors(Unit):
+    module = FN
+    qualname = "cal_neighbors"
+    prop = "C20"
+    timeout = 30
+    summaries = CONVERT
+
+    def cases(self):
+        return ["d=2", "d=3"]
+
+    def setup(self, ctx, case):
+        d = int(case[2])
+        tr = Traj(ctx, d)
+        ctx.array_fact("BL", lambda s, c: z3.And(tr.BL(s, c) > 0, tr.BL(s, c) == tr.BB(s, c, 1) - tr.BB(s, c, 0)))
+        snaps = tr.snapshots()
+        inp = dict(tr=tr, d=d, s=ctx.int("s"), i=ctx.int("i"), r=ctx.int("r"))
+        return [snaps, "out"], {}, inp
+
+    def clause_names(self, case):
+        return ["files:three-closed-files-with-the-documented-names",
+                "structure:per-frame-header-then-one-row-per-particle-in-id-order",
+                "row:id=i+1-and-cn=number-of-listed-neighbours=number-of-listed-weights=overall-count",
+                "row:listed-ids=tessellation-neighbours+1,weights-and-volumes-of-the-tessellation-of-the-centred-frame",
+                "relation:symmetric-with-equal-weights-in-the-files(given-the-assumed-freud-contract)",
+                "overall:one-header-then-per-frame-one-row-per-particle:id-cn-volume",
+                "reader-precondition(C05):header-words,id-bijection,cn>=0,exactly-cn-values,1+N-lines-per-frame"]
+
+    def _file_rows(self, f, T, N, header_words, s, i):
+        """-> (outer, inner, row parts at frame s / particle i) for a neighbour-format file"""
+        from pyvc.text import Block, Text, text_lines
+        items = f["items"]
+        if not f.get("closed") or len(items) != 1 or not isinstance(items[0], Block):
+            return None
+        outer = items[0]
+        if not (sv.is_conc(outer.lo) and outer.lo == 0 and A.dim_eq_syntactic(outer.hi, T)):
+            return None
+        fi = outer.at(s)
+        if len(fi) != 2 or not isinstance(fi[0], Text) or not isinstance(fi[1], Block):
+            return None
+        if text_lines([fi[0]]) != [header_words, []]:
+            return None
+        inner = fi[1]
+        if not (sv.is_conc(inner.lo) and inner.lo == 0 and A.dim_eq_syntactic(inner.hi, N)):
+            return None
+        parts = _row_parts(inner.at(i))
+        if parts is None:
+            return None
+        return outer, inner, parts
+
+    def ensures(self, ctx, case, inp, out):
+        from pyvc.text import Block, Text, Tok, text_lines
+        tr, d, s, i, r = inp["tr"], inp["d"], inp["s"], inp["i"], inp["r"]
+        T, N = tr.T, tr.N
+        names = self.clause_names(case)
+        files = _written_files(out.state)
+        bond_ext, bond_word = BOND[d]
+        want = {"out.overall.dat", "out.neighbor.dat", f"out.{bond_ext}.dat"}
+        ok = set(files) == want and all(f.get("closed") for f in files.values()) and len(files) == 3
+        yield names[0], bool(ok)
+        if not ok:
+            return
+        fn_, fb_, fo_ = files["out.neighbor.dat"], files[f"out.{bond_ext}.dat"], files["out.overall.dat"]
+        nb = self._file_rows(fn_, T, N, ["id", "cn", "neighborlist"], s, i)
+        bd = self._file_rows(fb_, T, N, ["id", "cn", bond_word], s, i)
+        ok = nb is not None and bd is not None and nb[2][3].kind == "int" and bd[2][3].kind == "float"
+        yield names[1], bool(ok)
+        if not ok:
+            return
+        # overall file
+        oi = fo_["items"]
+        oko = len(oi) == 2 and isinstance(oi[0], Text) and text_lines([oi[0]]) == [["id", "cn", "area_or_volume"], []] and isinstance(oi[1], Block)
+        orow = None
+        if oko:
+            oo = oi[1]
+            oko = sv.is_conc(oo.lo) and oo.lo == 0 and A.dim_eq_syntactic(oo.hi, T) and len(oo.items) == 1 and isinstance(oo.items[0], Block)
+        if oko:
+            ob = oo.at(s)[0]
+            oko = sv.is_conc(ob.lo) and ob.lo == 0 and A.dim_eq_syntactic(ob.hi, N) and len(ob.items) == 1 and isinstance(ob.items[0], Text)
+        if oko:
+            ol = text_lines(ob.at(i))
+            oko = len(ol) == 2 and ol[1] == [] and len(ol[0]) == 3 and all(isinstance(t, Tok) for t in ol[0]) \
+                and [t.kind for t in ol[0]] == ["int", "int", "float"]
+            orow = ol[0] if oko else None
+        ins = sv.and_(sv.cmp(">=", s, 0), sv.cmp("<", s, T), sv.cmp(">=", i, 0), sv.cmp("<", i, N))
+        sysm = spec_system(tr, s, d)
+        (n_id, n_cn, n_blk, n_val), (b_id, b_cn, b_blk, b_val) = nb[2], bd[2]
+        cn = sysm.CN(i)
+        g = [sv.cmp("==", n_id.value, sv.add(i, 1)), sv.cmp("==", b_id.value, sv.add(i, 1)),
+             sv.cmp("==", n_cn.value, n_blk.hi), sv.cmp("==", b_cn.value, b_blk.hi), sv.cmp("==", n_cn.value, b_cn.value),
+             sv.cmp("==", n_blk.lo, 0), sv.cmp("==", b_blk.lo, 0), sv.cmp(">=", n_cn.value, 1), sv.cmp("==", n_cn.value, cn)]
+        if orow is not None:
+            g += [sv.cmp("==", orow[0].value, sv.add(i, 1)), sv.cmp("==", orow[1].value, n_cn.value)]
+        yield names[2], sv.implies(ins, _conj(g)) if orow is not None else False
+        inr = sv.and_(ins, sv.cmp(">=", r, 0), sv.cmp("<", r, cn))
+
+        def val_at(blk, rr):
+            return text_lines([blk.at(rr)[0]])[0][0].value
+        nv, bv = val_at(n_blk, r), val_at(b_blk, r)
+        g = [sv.cmp("==", nv, sv.add(sysm.NBR(i, r), 1)), sv.cmp(">=", nv, 1), sv.cmp("<=", nv, N),
+             sv.cmp("==", bv, sv.round_dec(sysm.WGT(i, r), 6)), sv.cmp(">", sysm.WGT(i, r), 0)]
+        if orow is not None:
+            g += [sv.cmp("==", orow[2].value, sv.round_dec(sysm.VOL(i), 6)), sv.cmp(">", sysm.VOL(i), 0)]
+        yield names[3], sv.implies(inr, _conj(g)) if orow is not None else False
+        # symmetry: the particle listed at position r of row i lists i at position q = REV(i, r) of its own row, with the same weight
+        j = sv.sub(nv, 1)
+        q = sysm.REV(i, r)
+        nbj = self._file_rows(fn_, T, N, ["id", "cn", "neighborlist"], s, j)
+        bdj = self._file_rows(fb_, T, N, ["id", "cn", bond_word], s, j)
+        if nbj is None or bdj is None:
+            yield names[4], False
+        else:
+            cnj = nbj[2][1].value
+            yield names[4], sv.implies(inr, sv.and_(sv.cmp(">=", j, 0), sv.cmp("<", j, N), sv.cmp(">=", q, 0), sv.cmp("<", q, cnj),
+                                                    sv.cmp("==", val_at(nbj[2][2], q), sv.add(i, 1)),
+                                                    sv.cmp("==", val_at(bdj[2][2], q), bv)))
+        yield names[5], bool(oko)
+        # hand-off to read_neighbors (contracts/C05.ReadNeighbors.setup): a header line whose words contain `neighborlist` exactly for
+        # the neighbour file, then N rows `id cn v_1 .. v_cn`: ids a bijection of the rows onto 1..N (here the identity), cn >= 0, exactly cn
+        # value tokens (int ids / float weights); frames follow each other without a gap (the structure clause: 1 + N lines per frame)
+        yield names[6], sv.implies(ins, sv.and_("neighborlist" not in [bond_word], sv.cmp(">=", n_id.value, 1), sv.cmp("<=", n_id.value, N),
+                                                sv.cmp("==", sv.sub(n_id.value, 1), i), sv.cmp(">=", n_cn.value, 0), sv.cmp("==", n_blk.hi, n_cn.value),
+                                                sv.cmp("==", b_blk.hi, b_cn.value), sv.cmp("==", sv.sub(b_id.value, 1), i), sv.cmp(">=", b_cn.value, 0)))
+
+    def replay(self, case, clause, model, seed):
+        return _replay_cal(int(case[2]), clause, seed)
+
+
+def _replay_cal(d, clause, seed):
+    import importlib
+    import os
+    import shutil
+    import tempfile
+
+    import freud
+    import numpy as np
+    M = importlib.import_module(FN)
+    RUm = importlib.import_module(RU)
+    RD = importlib.import_module("PyMatterSim.neighbors.read_neighbors")
+    rng = np.random.default_rng(seed + 10 * d)
+    tmp = tempfile.mkdtemp(prefix="pyvc-replay-")
+    n = 0
+    try:
+        for kind in ["any", "zero", "centred", "sum-zero", "any"]:
+            for N, T in ((6, 1), (9, 2), (14, 3)):
+                n += 1
+                S = _mk_snapshots(np, RUm, rng, N, d, T, kind)
+                out = os.path.join(tmp, f"o{n}")
+                inputs = {"d": d, "N": N, "T": T, "origin": kind, "boxbounds[0]": S.snapshots[0].boxbounds.tolist(), "positions[0]": S.snapshots[0].positions.tolist()}
+                try:
+                    M.cal_neighbors(S, out)
+                except Exception as e:
+                    return {"ran": True, "failed": True, "searched": n, "inputs": inputs, "detail": f"raises {type(e).__name__}: {e}"}
+                bond = out + (".edgelength.dat" if d == 2 else ".facearea.dat")
+                for pth in (out + ".neighbor.dat", bond, out + ".overall.dat"):
+                    if not os.path.exists(pth):
+                        return {"ran": True, "failed": True, "searched": n, "inputs": inputs, "detail": f"file {os.path.basename(pth)} not written"}
+                lines = {k: open(pth).read().split("\n") for k, pth in (("n", out + ".neighbor.dat"), ("b", bond), ("o", out + ".overall.dat"))}
+                if lines["o"][0].split() != ["id", "cn", "area_or_volume"]:
+                    return {"ran": True, "failed": True, "searched": n, "inputs": inputs, "detail": f"overall header {lines['o'][0]!r}"}
+                for s in range(T):
+                    sn = S.snapshots[s]
+                    # independent tessellation of the centred, padded frame
+                    pts = np.zeros((N, 3))
+                    pts[:, :d] = sn.positions - (sn.boxbounds[:, 0] + sn.boxlength / 2)
+                    v = freud.locality.Voronoi()
+                    v.compute((freud.box.Box.from_box(sn.boxlength), pts))
+                    nl = np.array(v.nlist)
+                    w = np.array(v.nlist.weights)
+                    vol = np.array(v.volumes)
+                    hn, hb = lines["n"][s * (N + 1)].split(), lines["b"][s * (N + 1)].split()
+                    if hn != ["id", "cn", "neighborlist"] or hb != ["id", "cn", "edgelengthlist" if d == 2 else "facearealist"]:
+                        return {"ran": True, "failed": True, "searched": n, "inputs": inputs, "detail": f"frame {s}: headers {hn} / {hb}"}
+                    rows = {}
+                    for i in range(N):
+                        tn = lines["n"][s * (N + 1) + 1 + i].split()
+                        tb = lines["b"][s * (N + 1) + 1 + i].split()
+                        to = lines["o"][1 + s * N + i].split()
+                        mine = nl[nl[:, 0] == i]
+                        wi = w[nl[:, 0] == i]
+                        bad = None
+                        if int(tn[0]) != i + 1 or int(tb[0]) != i + 1 or int(to[0]) != i + 1:
+                            bad = f"ids {tn[0]}/{tb[0]}/{to[0]} in the row of particle {i + 1}"
+                        elif not (int(tn[1]) == len(tn) - 2 == int(tb[1]) == len(tb) - 2 == int(to[1]) == len(mine)):
+                            bad = f"cn {tn[1]} / listed neighbours {len(tn) - 2} / cn {tb[1]} / listed weights {len(tb) - 2} / overall cn {to[1]} / tessellation {len(mine)}"
+                        elif [int(x) for x in tn[2:]] != [int(x) + 1 for x in mine[:, 1]]:
+                            bad = f"listed {tn[2:]}, tessellation neighbours + 1 = {[int(x) + 1 for x in mine[:, 1]]}"
+                        elif not np.allclose([float(x) for x in tb[2:]], wi, atol=2e-6, rtol=1e-5):
+                            bad = f"weights {tb[2:]} vs {wi.tolist()}"
+                        elif abs(float(to[2]) - vol[i]) > 2e-6 + 1e-5 * abs(vol[i]):
+                            bad = f"volume {to[2]} vs {vol[i]}"
+                        if bad:
+                            return {"ran": True, "failed": True, "searched": n, "inputs": dict(inputs, frame=s, particle=i), "detail": f"frame {s}, particle {i}: {bad}"}
+                        rows[i] = ([int(x) - 1 for x in tn[2:]], [float(x) for x in tb[2:]])
+                    from collections import Counter
+                    fw = Counter((i, j, wt) for i, (js, ws) in rows.items() for j, wt in zip(js, ws))
+                    bw = Counter((j, i, wt) for i, (js, ws) in rows.items() for j, wt in zip(js, ws))
+                    if Counter((a, b) for a, b, _ in fw.elements()) != Counter((a, b) for a, b, _ in bw.elements()):
+                        return {"ran": True, "failed": True, "searched": n, "inputs": dict(inputs, frame=s), "detail": f"frame {s}: the written neighbour relation is not symmetric"}
+                # hand-off: the neighbour-file reader delivers zero-based lists, frame by frame, from one handle
+                with open(out + ".neighbor.dat") as fa, open(bond) as fb:
+                    for s in range(T):
+                        try:
+                            ga = RD.read_neighbors(fa, N, 200)
+                            gb = RD.read_neighbors(fb, N, 200)
+                        except Exception as e:
+                            return {"ran": True, "failed": True, "searched": n, "inputs": dict(inputs, frame=s), "detail": f"read_neighbors raises {type(e).__name__}: {e}"}
+                        for i in range(N):
+                            tn = lines["n"][s * (N + 1) + 1 + i].split()
+                            tb = lines["b"][s * (N + 1) + 1 + i].split()
+                            cn = int(tn[1])
+                            if int(ga[i, 0]) != cn or [int(x) for x in ga[i, 1:1 + cn]] != [int(x) - 1 for x in tn[2:]] \
+                                    or not np.allclose(gb[i, 1:1 + cn], [float(x) for x in tb[2:]]):
+                                return {"ran": True, "failed": True, "searched": n, "inputs": dict(inputs, frame=s, particle=i),
+                                        "detail": f"frame {s}, particle {i}: read_neighbors returns {ga[i].tolist()} / {gb[i].tolist()} for rows {tn} / {tb}"}
+        return {"ran": True, "failed": False, "searched": n}
+    finally:
+        shutil.rmtree(tmp, ignore_errors=True)
+
+
+UNITS = [ConvertConfiguration(), CalNeighbors()]
+
+MANIFEST = {
+    "text": "TBD",
+    "note": "TBD",
+}
